@@ -857,6 +857,13 @@ class Engine:
                 self.oblige(st, 'raise/unexpected-%s' % cls, z3.BoolVal(False), line=getattr(exc, 'line', None))
             elif cond is not True:
                 self.oblige(st, 'raise/%s-only-when' % cls, self.ev_bool_str(cond, st), clause=cond)
+        else:
+            # an exception value of unknown class (raised by a modelled callee): allowed only by the contract's '*' entry
+            cond = self.c.raises.get('*')
+            if cond is None:
+                self.oblige(st, 'raise/unexpected-exception-of-a-callee', z3.BoolVal(False), line=getattr(exc, 'line', None))
+            elif cond is not True:
+                self.oblige(st, 'raise/callee-exception-only-when', self.ev_bool_str(cond, st), clause=cond)
 
     # ---- contract expressions
     def ev_bool_str(self, s: str, st: State):
